@@ -111,7 +111,7 @@ def grid(tier):
     return cases
 
 
-def base_doc(odml, variant):
+def base_doc(odml, variant, deep_ok=True):
     """variant 0: the fixed document; otherwise a seeded random tree (depth <= 4)."""
     doc = odml.Document(author="c07", version="1")
     if not variant:
@@ -128,11 +128,26 @@ def base_doc(odml, variant):
         return doc
     import random
     rng = random.Random(variant)
+    if variant % 7 == 1 and deep_ok:
+        # a branch nested deeper than any reader or walker limit one might think of (290 levels;
+        # the defects planted "deep" end up at its far end)
+        cur = odml.Section(name="deep0", type="t", parent=doc)
+        for i in range(1, 290):
+            cur = odml.Section(name="deep%d" % i, type="t", parent=cur)
+        odml.Property(name="bottom", values=[1], parent=cur)
     if variant % 7 == 3:
         # a document with many issues that are only warnings (Sections of the default type),
         # all of them ahead of whatever is planted below
         for i in range(rng.choice([26, 40, 101])):
             odml.Section(name="w%d" % i, parent=doc)
+    if variant % 7 == 5:
+        # siblings whose names look alike and are different names: composed and decomposed
+        # spelling of one letter, upper and lower case - a valid document
+        twin = odml.Section(name="Caf\u00e9", type="t", parent=doc)
+        odml.Section(name="Cafe\u0301", type="t", parent=doc)
+        odml.Property(name="\u00e4", values=[1], parent=twin)
+        odml.Property(name="a\u0308", values=[2], parent=twin)
+        odml.Property(name="A\u0308", values=[3], parent=twin)
     conts = [(doc, 0)]
     for i in range(rng.randint(2, 9)):
         par, depth = rng.choice([c for c in conts if c[1] < 4]) if i >= 2 else conts[0]
@@ -147,7 +162,9 @@ def base_doc(odml, variant):
 def build_doc(odml, defect, fail, variant=0):
     import random
     rng = random.Random(variant * 7919 + 1)
-    doc = base_doc(odml, variant)
+    # (a document that deep is beyond what the YAML and RDF serialisers can write at all: it is
+    # only used where the save has to be refused anyway)
+    doc = base_doc(odml, variant, deep_ok=defect in ERROR_DEFECTS and fail == "none")
     secs = list(doc.itersections())
     props = list(doc.iterproperties())
     deep = [s for s in secs if s.parent is not doc] or secs
